@@ -141,6 +141,22 @@ SPECS["C09"] = dict(
     ],
 )
 
+SPECS["C13"] = dict(
+    title="blocked Read/Write/Accept always wake: data, deadline, close, error",
+    level="exploration",
+    technique="rapid state machines (t.Repeat) over real sessions and listeners in a synctest bubble; reason-to-return model checked at every quiescent point, exact virtual-time deadline oracle",
+    level_text="TODO",
+    level_note="TODO",
+    design_ref="5/C13",
+    rule="TODO",
+    jobs=[
+        rapid("TestC13Session", 700, 20000, sq=4, st=16, steps=60),
+        rapid("TestC13Accept", 500, 10000, sq=2, st=8, steps=40),
+        plain("TestC13KnownDeadlineOneWaiter", sq=1, st=1),
+        plain("TestC13KnownAcceptDeadline", sq=1, st=1),
+    ],
+)
+
 NOTES = ("Every check is `./check <id> quick|thorough`; it rebuilds the harness against /repo's working tree with -tags verif, "
          "runs rapid / enumeration jobs in parallel shards seeded from VERIF_SEED, writes evidence/<id>.json, prints "
          "KNOWN-FINDING lines for entries of known_findings.jsonl that still reproduce, and exits 1 with a VIOLATION line otherwise. "
